@@ -458,6 +458,7 @@ func main() {
 			"known_findings_confirmed":      keysOf(knownSeen),
 			"inconclusive":                  inconclusive,
 			"bounds":                        boundsText(*tier),
+			"bounds_per_harness":            harnessBounds(hdir, names),
 			"exhaustive":                    false,
 		},
 		"assumptions": assumptions,
@@ -488,6 +489,23 @@ func boundsText(tier string) string {
 		return "thorough tier: see DESIGN.md section 6 (contexts<=3, providers per context<=3, promotions<=2/3); loops unroll on concrete lengths; step budget 2e7 instructions/path and path budget act as unwinding assertions"
 	}
 	return "quick tier: see DESIGN.md section 6 (contexts<=2, providers per context<=2, promotions<=1/2); loops unroll on concrete lengths; step budget 2e7 instructions/path and path budget act as unwinding assertions"
+}
+
+// harnessBounds gives the stated bound of each harness run (harness/bounds.json, keyed by name pattern)
+func harnessBounds(hdir string, names []string) map[string]string {
+	out := map[string]string{}
+	pats := map[string]string{}
+	if bz, err := os.ReadFile(filepath.Join(hdir, "bounds.json")); err == nil {
+		json.Unmarshal(bz, &pats)
+	}
+	for _, n := range names {
+		for p, txt := range pats {
+			if ok, _ := regexp.MatchString(p, n); ok {
+				out[n] = txt
+			}
+		}
+	}
+	return out
 }
 
 func trimModel(m map[string]string, n int) map[string]string {
